@@ -47,7 +47,9 @@ def plan(tier, seed):
             if kind == 'cbmm':
                 K = 2; D = int(rng.integers(2, 4))
             lead = rand_lead(rng, small=(kind == 'cbmm'))
-            o = {'wca': [-1], 'saliency': pick(['none', 'pos'])}
+            o = {'wca': pick([[-1], [-1], [-2]]), 'saliency': pick(['none', 'pos'])}        # per-slice weights: tied over the observations of a slice, or over its classes
+            if rng.uniform() < 0.4:
+                o['wca_int'] = True
             if kind == 'cacgmm':
                 o.update(covariance_norm=pick(['eigenvalue', 'trace', False]), hermitize=pick([True, False]), affiliation_eps=pick([0.0, 1e-10]), eigenvalue_floor=pick([1e-10, 1e-10, 0.05]))
                 o['mask'] = bool(rng.uniform() < 0.25)
@@ -268,10 +270,14 @@ def run_mixture(case, R):
         for k, v in F.items():
             v = np.asarray(v)
             hd = v.shape[:len(lead)]
+            if v.ndim != np.ndim(f.get(k, v)) + len(lead):
+                Fi[k] = v           # no leading axes at all (e.g. the constant class-tied weight 1/K of shape (K, 1), also when K == F)
+                continue
             if hd != lead and len(hd) == len(lead) and all(a == b or a == 1 for a, b in zip(hd, lead)):
                 # parameters of a fit from a start with singleton leading axes may keep those singleton axes
                 v = np.broadcast_to(v, lead + v.shape[len(lead):])
-            Fi[k] = v[idx] if v.shape[:len(lead)] == lead else v
+            # (a parameter without leading axes - e.g. the constant class-tied weight 1/K of shape (K, 1) - is compared as it is, also when K happens to equal F)
+            Fi[k] = v[idx] if (v.shape[:len(lead)] == lead and v.ndim == np.ndim(f.get(k, v)) + len(lead)) else v
         w, name = diff.compare(f, Fi, rtol=tol * 10, atol=tol * 10)
         if w > worst:
             worst, wname = w, name
